@@ -1,6 +1,7 @@
 package checks
 
 import (
+	"bytes"
 	"fmt"
 	"reflect"
 	"testing"
@@ -211,7 +212,11 @@ func runC04(c projCase) (bool, []string, error) {
 	if err != nil {
 		return nt, labels, fmt.Errorf("full decode failed: %v", err)
 	}
-	proj, err := readWire(file, ptyp)
+	dirtyTarget := len(w.Sync) > 2 && w.Sync[2]%2 == 0
+	if dirtyTarget {
+		labels = append(labels, "dirty_target")
+	}
+	proj, err := readWireInto(bytes.NewReader(file), ptyp, dirtyTarget)
 	if err != nil {
 		return nt, labels, fmt.Errorf("projected decode failed although the full decode succeeds: %v", err)
 	}
